@@ -37,7 +37,8 @@ Silent == UNCHANGED <<l, mode, called, phase>>
 
 TraceReset ==
     /\ IsEvent("Reset")
-    /\ inTable' = TRUE /\ active' = FALSE /\ finalised' = FALSE /\ closed' = FALSE
+    /\ inTable' = TRUE /\ bInTable' = FALSE /\ bLive' = FALSE
+    /\ active' = FALSE /\ finalised' = FALSE /\ closed' = FALSE
     /\ runCh' = 0 /\ cancelCh' = 0 /\ lock' = "free"
     /\ gpc' = (IF Periodic THEN "p0" ELSE "select") /\ runs' = 0 /\ running' = 0
     /\ timerExpired' = FALSE /\ ctxDone' = FALSE /\ panicked' = FALSE
@@ -75,8 +76,8 @@ TCall ==   \* RunJob / CancelJob is about to be called by thread th
 TRet ==    \* the call returned res
     /\ IsEvent("Ret") /\ Who \in called
     \* only success / refusal is compared: which refusal is returned is not part of C02
-    /\ \/ Who \in Callers /\ cpc[Who] = "done" /\ ((cres[Who] = "ok") <=> (Line.res = "ok"))
-       \/ Who \in Cancellers /\ kpc[Who] = "done" /\ ((kres[Who] = "ok") <=> (Line.res = "ok"))
+    /\ \/ Who \in Callers /\ cpc[Who] = "done" /\ ((cres[Who] \in {"ok", "okb"}) <=> (Line.res = "ok"))
+       \/ Who \in Cancellers /\ kpc[Who] = "done" /\ ((kres[Who] \in {"ok", "okb"}) <=> (Line.res = "ok"))
     /\ Line.res \in {"ok", "refused"}
     /\ UNCHANGED vars /\ Keep
 
@@ -87,8 +88,16 @@ TClockNear == IsEvent("ClockNear") /\ phase' = "near" /\ UNCHANGED <<vars, mode,
 TClockDue ==
     /\ IsEvent("ClockDue") /\ phase' = "due"
     /\ timerExpired' = TRUE
-    /\ UNCHANGED <<inTable, active, finalised, closed, runCh, cancelCh, lock, gpc, runs, running, ctxDone, panicked, cpc, cres, kpc, kres, took>>
+    /\ UNCHANGED <<inTable, bInTable, bLive, active, finalised, closed, runCh, cancelCh, lock, gpc, runs, running, ctxDone, panicked, cpc, cres, kpc, kres, took>>
     /\ UNCHANGED <<mode, called>>
+
+\* ScheduleJob was called again with the same name: accepted iff the name is free
+TResched ==
+    /\ IsEvent("Resched")
+    /\ IF Line.ok THEN Resched ELSE ((inTable \/ bInTable) /\ UNCHANGED vars)
+    /\ Keep
+\* JobExists(name) probed
+TProbe == IsEvent("Probe") /\ (inTable \/ bInTable) = Line.exists /\ UNCHANGED vars /\ Keep
 
 \* periodic: the runtime function was called and returned the next time / no more instances
 TPNext   == IsEvent("PNext") /\ GPNext /\ phase' = "early" /\ UNCHANGED <<mode, called>>
@@ -110,7 +119,7 @@ TQuiet == IsEvent("Quiet") /\ ~(gpc = "select" /\ ReadyCase) /\ UNCHANGED vars /
 TQuiesce ==
     /\ IsEvent("Quiesce")
     /\ runs = Line.runs
-    /\ inTable = Line.intable
+    /\ (inTable \/ bInTable) = Line.intable
     /\ Line.gexit => gpc = "done"
     /\ ~(gpc = "select" /\ ReadyCase)
     /\ UNCHANGED vars /\ Keep
@@ -139,6 +148,7 @@ THooks ==
 TraceNext ==
     \/ TraceReset
     \/ SilentCaller \/ SilentTimer \/ SilentGoroutine
+    \/ TResched \/ TProbe
     \/ TCall \/ TRet \/ TCtx \/ TClockNear \/ TClockDue \/ TPNext \/ TPNoMore
     \/ TJobStart \/ TJobEnd \/ TGExit \/ TQuiet \/ TQuiesce
     \/ THooks
